@@ -200,6 +200,13 @@ pub fn get_rates(deps: &Deps) -> (Decimal, Decimal) {
     }
 }
 
+/// Computes the deadline `time + period` (both in seconds), returning an error
+/// instead of overflowing when the configured period is too big.
+pub fn checked_deadline(time: u64, period: u64) -> StdResult<u64> {
+    time.checked_add(period)
+        .ok_or_else(|| StdError::generic_err("deadline overflow: period is too big"))
+}
+
 /// Checks if the provided denom is valid or not.
 pub fn validate_denom(denom: impl Into<String>) -> StdResult<String> {
     let denom: String = denom.into();
